@@ -156,6 +156,10 @@ def _prove_dyadic(ctx, prop):
     reals = [c for c in ctx.inputs.values() if z3.is_real(c)]
     if not reals:
         return verdict, inputs
+    if getattr(ctx, 'sqrt_defs', None):
+        # integrality side conditions on top of s*s == e are mixed
+        # non-linear integer/real arithmetic: keep the plain model
+        return verdict, inputs
     for den in (8, 1024, 2 ** 20):
         ctx.solver.push()
         try:
